@@ -431,6 +431,9 @@ func (s *Sched) settle() {
 
 func NewSched(tape *Tape, env Env) *Sched {
 	s := &Sched{tape: tape, env: env, MaxSteps: 4000, Trace: newHasher()}
+	if tape.Deep {
+		s.MaxSteps = 20000
+	}
 	if Instrumented {
 		// statement-level pre-emption (instrumented build): per run either off or a mean gap
 		// of 15 / 150 / 1500 statements between forced yields, a few per task and phase
